@@ -40,13 +40,22 @@ DOMAIN_OF = lambda r: {"SEC": "secure", "RAD": "radio", "APP": "application"}[r[
 KCONF_ROLE = lambda r: "ROOT" if r == "APP_ROOT" else r  # noqa: E731
 
 
+KCONF_CALLS = [0]
+
+
 def kconfig_text(assign: dict) -> str:
-    """role -> (vendor, class) as sysbuild Kconfig lines."""
+    """role -> (vendor, class) as sysbuild Kconfig lines.  The file FORM varies from call to call: comment and blank lines, CRLF
+    line ends (a configuration written on Windows), no newline after the last line."""
+    KCONF_CALLS[0] += 1
+    form = KCONF_CALLS[0] % 4
     lines = ["CONFIG_SOMETHING=y", "SB_CONFIG_OTHER=0x10"]
+    if form == 1:
+        lines += ["", "# SB_CONFIG_SUIT_MPI_APP_LOCAL_3 is not set", "#"]
     for role, (v, c) in assign.items():
         lines.append(f'SB_CONFIG_SUIT_MPI_{KCONF_ROLE(role)}_VENDOR_NAME="{v}"')
         lines.append(f'SB_CONFIG_SUIT_MPI_{KCONF_ROLE(role)}_CLASS_NAME="{c}"')
-    return "\n".join(lines) + "\n"
+    nl = "\r\n" if form == 2 else "\n"
+    return nl.join(lines) + ("" if form == 3 else nl)
 
 
 def make_envelope(ctx, d, rng, k, vendor, cls, cid=True, total=None, signed=None, keys=None, soc="nrf54h20", role=None):
@@ -122,7 +131,7 @@ def run_scenario(ctx, events, tids, counter, scn, files, roles):
     cfg = None
     if scn.get("kconfig"):
         cfg = d / "sysbuild.config"
-        cfg.write_text(kconfig_text({r: tuple(v) for r, v in scn["kconfig"].items()}))
+        cfg.write_bytes(kconfig_text({r: tuple(v) for r, v in scn["kconfig"].items()}).encode("utf-8"))
     soc, base, via = scn["soc"], scn["base"], scn["via"]
     err = None
     doms = ("secure", "application", "radio")
